@@ -6,6 +6,7 @@ import (
 	"errors"
 	"time"
 
+	"github.com/libp2p/go-libp2p/core/network"
 	"github.com/libp2p/go-libp2p/core/peer"
 )
 
@@ -52,4 +53,11 @@ func (ex *Exchange[H]) VerifScorePeer(id peer.ID, amount int, d time.Duration) b
 // VerifBlockPeer blocks a peer, as a session does for a misbehaving one.
 func (ex *Exchange[H]) VerifBlockPeer(id peer.ID) {
 	ex.peerTracker.blockPeer(id, errors.New("verif: blocked by the harness"))
+}
+
+// VerifServe hands a stream to the server's request handler, as the host does for an inbound
+// stream of the protocol (the harness uses it with a stream that honours deadlines, which
+// mocknet streams do not).
+func (serv *ExchangeServer[H]) VerifServe(stream network.Stream) {
+	serv.requestHandler(stream)
 }
